@@ -16,8 +16,7 @@
 EXTENDS Integers, Sequences, TLC, Json, IOUtils
 Obs == JsonDeserialize(IOEnv.TRACE_FILE)
 OffV == -2
-FW == INSTANCE FrameWriter WITH Cases <- {}, Off <- OffV, Variant <- "code", Emit <- FALSE,
-                               case <- <<0, 0, 0>>, env <- [pl |-> 0], pc <- "", consumed <- 0, got <- 0
+FW == INSTANCE FrameEnvelope WITH Off <- OffV, Variant <- "code"
 
 VARIABLE i
 Init == i \in 1..Len(Obs)
